@@ -2,7 +2,7 @@
    Statements only; proofs are in proofs/RSyncP.v. *)
 From Coq Require Import ZArith List Bool Arith.
 Import ListNotations.
-Require Import EV.model.RSync EV.proofs.RSyncP EV.gen.Facts.
+Require Import EV.model.RSync EV.proofs.RSyncP EV.model.RSyncProto EV.proofs.RSyncProtoP EV.gen.Facts.
 Open Scope Z_scope.
 
 Definition rs_cfg : scfg := {| file_mode_exact := rsync_file_mode_exact; rel_links_asis := rsync_rel_links_asis |}.
@@ -43,6 +43,16 @@ Print Assumptions C17_idempotent.
 Theorem C17_cwd_free : forall H delete cwd1 cwd2 src rp tgt, sync rs_cfg H delete cwd1 rp src tgt = sync rs_cfg H delete cwd2 rp src tgt.
 Proof. intros H delete cwd1 cwd2. exact (sync_cwd_free rs_cfg H delete cwd1 cwd2 (proj2 (proj1 C17_cfg_ok))). Qed.
 Print Assumptions C17_cwd_free.
+
+(* the tree function above is what the MESSAGE EXCHANGE computes: the sender's pre-order structure broadcast
+   ([mode, *names] / (mode, mtime, size) / None), the receiver walking its own tree while consuming it and issuing
+   "send" requests by PATH with an optional checksum, the sender answering each request by looking the path up in the
+   source tree (None when the checksum matches), the receiver applying the answers in request order, and the links
+   created by PATH in the link phase -- for every source tree and prior target state *)
+Theorem C17_protocol_refines : forall H delete cwd src tgt, WF src ->
+  exchange rs_cfg H delete cwd src tgt = Some (sync rs_cfg H delete cwd [] src tgt).
+Proof. intros H delete cwd. exact (exchange_is_sync rs_cfg H delete cwd). Qed.
+Print Assumptions C17_protocol_refines.
 
 (* each target's result is a function of (source, that target's prior state, its delete flag) alone: sync takes
    no other target as an argument; the harness checks 1-3 simultaneous targets against this function *)
